@@ -4,8 +4,9 @@
    document those of the right values of the SAME / CHANGE / ADD entries --
    through mappings (the keyed join), sets, all list comparers, both
    synchronisers and the pop-a-DELETE-to-make-a-CHANGE step (for any
-   YAMLPath.__eq__).  Guard: finding F3 (a null facing a container with
-   content), in the pairing-independent form [null_guard]. *)
+   YAMLPath.__eq__).  Guard: what is left of finding F3 after its repair - one
+   document is null (no document) and the other a container with content
+   ([root_guard], about the two roots only). *)
 From Coq Require Import List Ascii String ZArith NArith Bool Arith Lia Permutation.
 From YP Require Import Outcome PyStr PyVal Doc Diff C06Spec DiffBase DiffEq DiffKeys DiffSync.
 Import ListNotations.
@@ -99,47 +100,6 @@ Proof.
   - destruct (wf_set_inv _ _ Hwf) as [Hp _]. rewrite leaves_members; auto.
 Qed.
 
-Lemma has_null_child : forall n c, wf_doc n = true -> In c (children n) ->
-  has_null_leaf c = true -> has_null_leaf n = true.
-Proof.
-  intros n c Hwf Hin Hc. unfold has_null_leaf in *.
-  assert (Hl : is_leaf n = false) by (destruct n; simpl in *; auto; contradiction).
-  rewrite (leaves_children _ Hwf Hl).
-  apply existsb_exists in Hc. destruct Hc as [x [Hx Nx]].
-  apply existsb_exists. exists x. split; auto. apply in_flat_map. exists c. auto.
-Qed.
-
-Lemma children_content : forall n c, In c (children n) -> has_content n = true.
-Proof. intros n c H. destruct n as [|i [|]|i [|]|i [|]]; simpl in *; auto; contradiction. Qed.
-
-Lemma nocontent_flat : forall n, has_content n = false -> flat n = true.
-Proof.
-  intros n H. unfold flat. apply forallb_forall. intros c Hc.
-  rewrite (children_content _ _ Hc) in H. discriminate.
-Qed.
-
-Lemma null_guard_child : forall l r c d, wf_doc l = true ->
-  null_guard l r = true -> In c (children l) -> In d (children r) -> null_guard c d = true.
-Proof.
-  intros l r c d Hwf H Hc Hd. unfold null_guard in *.
-  apply andb_true_iff in H. destruct H as [_ H].
-  apply orb_true_iff in H.
-  destruct (has_null_leaf c) eqn:Nc.
-  - pose proof (has_null_child _ _ Hwf Hc Nc) as Nl. rewrite Nl in H. simpl in H.
-    destruct H as [H|H]; [discriminate|].
-    unfold flat in H. rewrite forallb_forall in H. specialize (H d Hd). apply negb_true_iff in H.
-    unfold clash_b. rewrite H, andb_false_r. simpl. apply nocontent_flat; auto.
-  - simpl. rewrite andb_true_r. unfold clash_b.
-    destruct (is_null_leaf c) eqn:E; auto.
-    exfalso. destruct c as [i v| | |]; simpl in E; try discriminate. destruct v; try discriminate.
-Qed.
-
-Lemma null_guard_clash : forall l r, null_guard l r = true -> is_null_leaf l = true -> has_content r = false.
-Proof.
-  intros l r H Hn. unfold null_guard in H. apply andb_true_iff in H. destruct H as [H _].
-  unfold clash_b in H. rewrite Hn in H. simpl in H. apply negb_true_iff in H. exact H.
-Qed.
-
 Lemma wf_children : forall n c, wf_doc n = true -> In c (children n) -> wf_doc c = true.
 Proof.
   intros n c Hwf Hin. destruct n as [i v|i kvs|i els|i els]; simpl in Hin; try contradiction.
@@ -181,39 +141,45 @@ Section Acct.
   Definition acct (l r : node) (a a' : list entry) : Prop :=
     Permutation (LL a') (LL a ++ leaves l) /\ Permutation (RL a') (RL a ++ leaves r).
 
+  (* the guard concerns the root call only (no parent) *)
+  Definition root_g (par : option node) (l r : node) : Prop := par = None -> root_guard l r = true.
+  Lemma root_g_child : forall p l r, root_g (Some p) l r.
+  Proof. intros p l r H. discriminate. Qed.
+
   Definition rec_acct (rec : rec_t) : Prop :=
     forall path q l r par pref a a',
-      wf_doc l = true -> wf_doc r = true -> null_guard l r = true -> null_guard r l = true ->
+      wf_doc l = true -> wf_doc r = true -> root_g par l r ->
       rec path q l r par pref a = Ok a' -> acct l r a a'.
 
   Lemma acct_cmp : forall path q l r a, acct l r a (cmp_entry path q l r :: a).
   Proof.
     intros. unfold acct, cmp_entry. rewrite LL_cons, RL_cons. unfold has_left, has_right. simpl.
-    destruct (node_eq l r); simpl; split; apply Permutation_app_comm.
+    destruct (val_eq l r); simpl; split; apply Permutation_app_comm.
   Qed.
 
   (* ---- _purge_document / _add_everything ---- *)
-  Lemma purge_app : forall path q l a, purge path q l a = purge path q l [] ++ a.
+  Lemma purge_app : forall path q l root a, purge path q l root a = purge path q l root [] ++ a.
   Proof.
-    intros path q l a. destruct l as [i v| | |]; simpl; try (rewrite app_nil_r; reflexivity).
-    destruct v; reflexivity.
+    intros path q l root a. destruct l as [i v| | |]; simpl; try (rewrite app_nil_r; reflexivity).
+    destruct v, root; reflexivity.
   Qed.
-  Lemma add_everything_app : forall path q l a, add_everything path q l a = add_everything path q l [] ++ a.
+  Lemma add_everything_app : forall path q l root a,
+    add_everything path q l root a = add_everything path q l root [] ++ a.
   Proof.
-    intros path q l a. destruct l as [i v| | |]; simpl; try (rewrite app_nil_r; reflexivity).
-    destruct v; reflexivity.
+    intros path q l root a. destruct l as [i v| | |]; simpl; try (rewrite app_nil_r; reflexivity).
+    destruct v, root; reflexivity.
   Qed.
 
   Lemma enum_leaves : forall (els : list node) i,
     flat_map (fun ie : nat * node => leaves (snd ie)) (enumerate_from i els) = flat_map leaves els.
   Proof. induction els; simpl; intros; auto. rewrite IHels. reflexivity. Qed.
 
-  Lemma purge_LL : forall path q l, wf_doc l = true -> is_null_leaf l = false ->
-    Permutation (LL (purge path q l [])) (leaves l).
+  Lemma purge_LL : forall path q l root, wf_doc l = true -> is_null_leaf l && root = false ->
+    Permutation (LL (purge path q l root [])) (leaves l).
   Proof.
-    intros path q l Hwf Hn. destruct l as [i v|i kvs|i els|i els].
-    - assert (E : purge path q (NLeaf i v) [] = [del_entry path q (NLeaf i v)]).
-      { destruct v; simpl in *; auto; discriminate. }
+    intros path q l root Hwf Hn. destruct l as [i v|i kvs|i els|i els].
+    - assert (E : purge path q (NLeaf i v) root [] = [del_entry path q (NLeaf i v)]).
+      { destruct v, root; simpl in *; auto; discriminate. }
       rewrite E. simpl. apply Permutation_refl.
     - simpl purge.
       eapply perm_trans; [apply (LL_dels _ (fun kv : node * node => snd kv)); intros; split; reflexivity|].
@@ -225,18 +191,18 @@ Section Acct.
       eapply perm_trans; [apply (LL_dels _ (fun e : node => e)); intros; split; reflexivity|].
       simpl. rewrite leaves_members; auto.
   Qed.
-  Lemma purge_RL : forall path q l, RL (purge path q l []) = [].
+  Lemma purge_RL : forall path q l root, RL (purge path q l root []) = [].
   Proof.
-    intros path q l. destruct l as [i v|i kvs|i els|i els]; simpl purge;
+    intros path q l root. destruct l as [i v|i kvs|i els|i els]; simpl purge;
       try (rewrite RL_dels; [reflexivity | intros; reflexivity]).
-    destruct v; reflexivity.
+    destruct v, root; reflexivity.
   Qed.
-  Lemma add_RL : forall path q l, wf_doc l = true -> is_null_leaf l = false ->
-    Permutation (RL (add_everything path q l [])) (leaves l).
+  Lemma add_RL : forall path q l root, wf_doc l = true -> is_null_leaf l && root = false ->
+    Permutation (RL (add_everything path q l root [])) (leaves l).
   Proof.
-    intros path q l Hwf Hn. destruct l as [i v|i kvs|i els|i els].
-    - assert (E : add_everything path q (NLeaf i v) [] = [add_entry path q (NLeaf i v)]).
-      { destruct v; simpl in *; auto; discriminate. }
+    intros path q l root Hwf Hn. destruct l as [i v|i kvs|i els|i els].
+    - assert (E : add_everything path q (NLeaf i v) root [] = [add_entry path q (NLeaf i v)]).
+      { destruct v, root; simpl in *; auto; discriminate. }
       rewrite E. simpl. apply Permutation_refl.
     - simpl add_everything.
       eapply perm_trans; [apply (RL_adds _ (fun kv : node * node => snd kv)); intros; split; reflexivity|].
@@ -248,55 +214,36 @@ Section Acct.
       eapply perm_trans; [apply (RL_adds _ (fun e : node => e)); intros; split; reflexivity|].
       simpl. rewrite leaves_members; auto.
   Qed.
-  Lemma add_LL : forall path q l, LL (add_everything path q l []) = [].
+  Lemma add_LL : forall path q l root, LL (add_everything path q l root []) = [].
   Proof.
-    intros path q l. destruct l as [i v|i kvs|i els|i els]; simpl add_everything;
+    intros path q l root. destruct l as [i v|i kvs|i els|i els]; simpl add_everything;
       try (rewrite LL_adds; [reflexivity | intros; reflexivity]).
-    destruct v; reflexivity.
+    destruct v, root; reflexivity.
   Qed.
 
-  Lemma purge_nil_null : forall path q l, is_null_leaf l = true -> purge path q l [] = [].
+  Lemma purge_nil_null : forall path q l, is_null_leaf l = true -> purge path q l true [] = [].
   Proof. intros path q l H. destruct l as [i v| | |]; simpl in *; try discriminate. destruct v; auto; discriminate. Qed.
-  Lemma add_nil_null : forall path q l, is_null_leaf l = true -> add_everything path q l [] = [].
+  Lemma add_nil_null : forall path q l, is_null_leaf l = true -> add_everything path q l true [] = [].
   Proof. intros path q l H. destruct l as [i v| | |]; simpl in *; try discriminate. destruct v; auto; discriminate. Qed.
-  Lemma purge_nil_nocontent : forall path q l, is_leaf l = false -> has_content l = false -> purge path q l [] = [].
-  Proof. intros path q l H1 H2. destruct l as [|i [|]|i [|]|i [|]]; simpl in *; auto; discriminate. Qed.
-  Lemma add_nil_nocontent : forall path q l, is_leaf l = false -> has_content l = false ->
-    add_everything path q l [] = [].
-  Proof. intros path q l H1 H2. destruct l as [|i [|]|i [|]|i [|]]; simpl in *; auto; discriminate. Qed.
-  Lemma nocontent_leaves : forall l, is_leaf l = false -> has_content l = false -> leaves l = [].
-  Proof. intros l H1 H2. destruct l as [|i [|]|i [|]|i [|]]; simpl in *; auto; discriminate. Qed.
-  (* something was emitted only for a value that is not null and not an empty container *)
-  Lemma purge_nil_inv : forall path q l, purge path q l [] = [] ->
-    is_null_leaf l = true \/ (is_leaf l = false /\ has_content l = false).
-  Proof.
-    intros path q l H. destruct l as [i v|i [|kv kvs]|i [|e els]|i [|e els]]; simpl in *; auto.
-    - destruct v; auto; discriminate.
-    - exfalso. destruct (rev (map _ kvs)); discriminate.
-    - exfalso. unfold enumerate in H. simpl in H. destruct (rev (map _ (enumerate_from 1 els))); discriminate.
-    - exfalso. destruct (rev (map _ els)); discriminate.
-  Qed.
-  Lemma add_nil_inv : forall path q l, add_everything path q l [] = [] ->
-    is_null_leaf l = true \/ (is_leaf l = false /\ has_content l = false).
-  Proof.
-    intros path q l H. destruct l as [i v|i [|kv kvs]|i [|e els]|i [|e els]]; simpl in *; auto.
-    - destruct v; auto; discriminate.
-    - exfalso. destruct (rev (map _ kvs)); discriminate.
-    - exfalso. unfold enumerate in H. simpl in H. destruct (rev (map _ (enumerate_from 1 els))); discriminate.
-    - exfalso. destruct (rev (map _ els)); discriminate.
-  Qed.
+  Lemma purge_nil_nocontent : forall path q l root, is_leaf l = false -> has_content l = false -> purge path q l root [] = [].
+  Proof. intros path q l root H1 H2. destruct l as [|i [|]|i [|]|i [|]]; simpl in *; auto; discriminate. Qed.
+  Lemma add_nil_nocontent : forall path q l root, is_leaf l = false -> has_content l = false ->
+    add_everything path q l root [] = [].
+  Proof. intros path q l root H1 H2. destruct l as [|i [|]|i [|]|i [|]]; simpl in *; auto; discriminate. Qed.
 
-  Lemma clash_acct : forall path q l r a a',
-    wf_doc l = true -> wf_doc r = true -> null_guard l r = true -> null_guard r l = true ->
+  Lemma clash_acct : forall path q l r par a a',
+    wf_doc l = true -> wf_doc r = true -> root_g par l r ->
     (is_leaf l = false \/ is_leaf r = false) ->
-    (let a1 := add_everything path q r (purge path q l a) in
+    (let root := match par with None => true | Some _ => false end in
+     let a1 := add_everything path q r root (purge path q l root a) in
      if Nat.eqb (List.length a1) (List.length a)
      then Ok (mkentry AChange path q l r :: a1) else Ok a1) = Ok a' ->
     acct l r a a'.
   Proof.
-    intros path q l r a a' Hwl Hwr G1 G2 Hk H. cbv zeta in H.
+    intros path q l r par a a' Hwl Hwr G Hk H. cbv zeta in H.
+    set (root := match par with None => true | Some _ => false end) in *.
     rewrite add_everything_app, purge_app in H.
-    set (pl := purge path q l []) in *. set (ar := add_everything path q r []) in *.
+    set (pl := purge path q l root []) in *. set (ar := add_everything path q r root []) in *.
     rewrite !app_length in H.
     destruct (Nat.eqb (List.length ar + (List.length pl + List.length a)) (List.length a)) eqn:El;
       inversion H; subst; clear H.
@@ -307,18 +254,22 @@ Section Acct.
       split; apply Permutation_app_comm.
     - apply Nat.eqb_neq in El.
       unfold acct. rewrite !LL_app, !RL_app. unfold ar at 1. rewrite add_LL. unfold pl at 2. rewrite purge_RL. simpl.
-      assert (NL : is_null_leaf l = false).
-      { destruct (is_null_leaf l) eqn:E; auto. exfalso.
-        pose proof (null_guard_clash _ _ G1 E) as Hc.
+      assert (NL : is_null_leaf l && root = false).
+      { destruct par as [p|]; [apply andb_false_r|].
+        destruct (is_null_leaf l) eqn:E; auto. exfalso.
+        pose proof (G eq_refl) as Gd. unfold root_guard, clash_b in Gd. rewrite E in Gd. simpl in Gd.
+        apply andb_true_iff in Gd. destruct Gd as [Hc _]. apply negb_true_iff in Hc.
         assert (Lr : is_leaf r = false).
         { destruct Hk as [Hk|Hk]; auto. destruct l; simpl in *; discriminate. }
-        unfold pl, ar in El. rewrite (purge_nil_null _ _ _ E), (add_nil_nocontent _ _ _ Lr Hc) in El. simpl in El. lia. }
-      assert (NR : is_null_leaf r = false).
-      { destruct (is_null_leaf r) eqn:E; auto. exfalso.
-        pose proof (null_guard_clash _ _ G2 E) as Hc.
+        unfold pl, ar, root in El. rewrite (purge_nil_null _ _ _ E), (add_nil_nocontent _ _ _ _ Lr Hc) in El. simpl in El. lia. }
+      assert (NR : is_null_leaf r && root = false).
+      { destruct par as [p|]; [apply andb_false_r|].
+        destruct (is_null_leaf r) eqn:E; auto. exfalso.
+        pose proof (G eq_refl) as Gd. unfold root_guard, clash_b in Gd. rewrite E in Gd. simpl in Gd.
+        apply andb_true_iff in Gd. destruct Gd as [_ Hc]. apply negb_true_iff in Hc.
         assert (Ll : is_leaf l = false).
         { destruct Hk as [Hk|Hk]; auto. destruct r; simpl in *; discriminate. }
-        unfold pl, ar in El. rewrite (add_nil_null _ _ _ E), (purge_nil_nocontent _ _ _ Ll Hc) in El. simpl in El. lia. }
+        unfold pl, ar, root in El. rewrite (add_nil_null _ _ _ E), (purge_nil_nocontent _ _ _ _ Ll Hc) in El. simpl in El. lia. }
       split.
       + eapply perm_trans; [apply Permutation_app_comm|]. apply Permutation_app_head. apply purge_LL; auto.
       + eapply perm_trans; [apply Permutation_app_comm|]. apply Permutation_app_head. apply add_RL; auto.
@@ -362,11 +313,10 @@ Section Acct.
   Lemma dicts_acct : forall rec path q i lkvs j rkvs a a',
     rec_acct rec ->
     wf_doc (NMap i lkvs) = true -> wf_doc (NMap j rkvs) = true ->
-    null_guard (NMap i lkvs) (NMap j rkvs) = true -> null_guard (NMap j rkvs) (NMap i lkvs) = true ->
     diff_dicts rec path q (NMap i lkvs) (NMap j rkvs) lkvs rkvs a = Ok a' ->
     acct (NMap i lkvs) (NMap j rkvs) a a'.
   Proof.
-    intros rec path q i lkvs j rkvs a a' Hrec HwL HwR G1 G2 H.
+    intros rec path q i lkvs j rkvs a a' Hrec HwL HwR H.
     destruct (wf_map_inv _ _ HwL) as [Lp [Ln Lw]].
     destruct (wf_map_inv _ _ HwR) as [Rp [Rn Rw]].
     unfold diff_dicts in H.
@@ -387,10 +337,7 @@ Section Acct.
         unfold map_has at 1. destruct (map_get k lkvs) as [lv|] eqn:Eg.
         - rewrite Hhas in Hstep.
           destruct (map_get_in _ _ _ Eg) as [kn Hkn].
-          assert (Cl : In lv (children (NMap i lkvs))) by (simpl; apply in_map_iff; exists (kn, lv); auto).
-          assert (Cr : In rv (children (NMap j rkvs))) by (simpl; apply in_map_iff; exists (k, rv); auto).
-          apply (Hrec _ _ _ _ _ _ _ _ (Lw _ Hkn) (Rw _ Hin)
-                      (null_guard_child _ _ _ _ HwL G1 Cl Cr) (null_guard_child _ _ _ _ HwR G2 Cr Cl) Hstep).
+          apply (Hrec _ _ _ _ _ _ _ _ (Lw _ Hkn) (Rw _ Hin) (root_g_child _ _ _) Hstep).
         - inversion Hstep; subst. rewrite !app_nil_r. split; apply Permutation_refl. }
       set (adds := filter (fun kv => negb (map_has (fst kv) lkvs)) rkvs).
       set (dels := filter (fun kv => negb (map_has (fst kv) rkvs)) lkvs).
@@ -435,11 +382,10 @@ Section Acct.
   Lemma sets_acct : forall rec path q i lels j rels a a',
     rec_acct rec ->
     wf_doc (NSet i lels) = true -> wf_doc (NSet j rels) = true ->
-    null_guard (NSet i lels) (NSet j rels) = true -> null_guard (NSet j rels) (NSet i lels) = true ->
     diff_sets rec path q (NSet i lels) (NSet j rels) lels rels a = Ok a' ->
     acct (NSet i lels) (NSet j rels) a a'.
   Proof.
-    intros rec path q i lels j rels a a' Hrec HwL HwR G1 G2 H.
+    intros rec path q i lels j rels a a' Hrec HwL HwR H.
     destruct (wf_set_inv _ _ HwL) as [Lp Ln].
     destruct (wf_set_inv _ _ HwR) as [Rp Rn].
     unfold diff_sets in H.
@@ -460,8 +406,7 @@ Section Acct.
       - rewrite Hhas in Hstep. simpl in Hstep. rewrite Hself in Hstep.
         pose proof (set_find_in _ _ E1) as Hm.
         assert (Pm : plain_leaf (set_find k lels) = true) by (rewrite forallb_forall in Lp; auto).
-        apply (Hrec _ _ _ _ _ _ _ _ (wf_plain_leaf _ Pm) (wf_plain_leaf _ Hk)
-                    (null_guard_child _ _ _ _ HwL G1 Hm Hin) (null_guard_child _ _ _ _ HwR G2 Hin Hm) Hstep).
+        apply (Hrec _ _ _ _ _ _ _ _ (wf_plain_leaf _ Pm) (wf_plain_leaf _ Hk) (root_g_child _ _ _) Hstep).
       - inversion Hstep; subst. rewrite !app_nil_r. split; apply Permutation_refl. }
     set (adds := filter (fun k => negb (set_has k lels)) rels).
     set (dels := filter (fun k => negb (set_has k rels)) lels).
@@ -497,30 +442,26 @@ Section Acct.
     rec_acct rec ->
     forall lels idx rels a a',
       (forall x, In x lels -> wf_doc x = true) -> (forall y, In y rels -> wf_doc y = true) ->
-      (forall x y, In x lels -> In y rels -> null_guard x y = true /\ null_guard y x = true) ->
       zip_go rec deep path q r0 idx lels rels a = Ok a' ->
       Permutation (LL a') (LL a ++ flat_map leaves lels) /\ Permutation (RL a') (RL a ++ flat_map leaves rels).
   Proof.
     intros rec deep path q r0 Hrec.
-    induction lels as [|le lr IH]; simpl; intros idx rels a a' HwL HwR HG H.
+    induction lels as [|le lr IH]; simpl; intros idx rels a a' HwL HwR H.
     - inversion H; subst. split.
       + rewrite LL_adds by (intros; reflexivity). rewrite app_nil_r. apply Permutation_refl.
       + eapply perm_trans; [apply (RL_adds _ (fun ie : nat * node => snd ie)); intros; split; reflexivity|].
         rewrite enum_leaves. apply Permutation_refl.
     - destruct rels as [|re rr].
-      + destruct (IH (S idx) [] _ _ (fun x Hx => HwL x (or_intror Hx)) HwR
-                     (fun x y _ (Hy : In y []) => match Hy with end) H) as [P1 P2].
+      + destruct (IH (S idx) [] _ _ (fun x Hx => HwL x (or_intror Hx)) HwR H) as [P1 P2].
         rewrite LL_cons, RL_cons in *. simpl in *. split; [|exact P2].
         eapply perm_trans; [exact P1|].
         rewrite <- app_assoc. eapply perm_trans; [apply Permutation_app_comm|].
         rewrite <- !app_assoc. apply Permutation_app_head. apply Permutation_app_comm.
       + match type of H with (bind ?F _ = _) => destruct F as [a1| |] eqn:EF end; simpl in H; try discriminate.
-        destruct (IH (S idx) rr _ _ (fun x Hx => HwL x (or_intror Hx)) (fun x Hx => HwR x (or_intror Hx))
-                     (fun x y Hx Hy => HG x y (or_intror Hx) (or_intror Hy)) H) as [P1 P2].
+        destruct (IH (S idx) rr _ _ (fun x Hx => HwL x (or_intror Hx)) (fun x Hx => HwR x (or_intror Hx)) H) as [P1 P2].
         assert (St : acct le re a a1).
         { destruct deep.
-          - destruct (HG le re (or_introl eq_refl) (or_introl eq_refl)) as [G1 G2].
-            eapply Hrec; [ | | exact G1 | exact G2 | exact EF].
+          - eapply Hrec; [ | | apply root_g_child | exact EF].
             + apply HwL; left; reflexivity.
             + apply HwR; left; reflexivity.
           - inversion EF; subst. apply acct_cmp. }
@@ -614,11 +555,10 @@ Section Acct.
   Lemma synced_acct : forall rec path q r0 lels rels a a',
     rec_acct rec ->
     (forall x, In x lels -> wf_doc x = true) -> (forall y, In y rels -> wf_doc y = true) ->
-    (forall x y, In x lels -> In y rels -> null_guard x y = true /\ null_guard y x = true) ->
     diff_synced path_eq rec path q r0 lels rels a = Ok a' ->
     Permutation (LL a') (LL a ++ flat_map leaves lels) /\ Permutation (RL a') (RL a ++ flat_map leaves rels).
   Proof.
-    intros rec path q r0 lels rels a a' Hrec HwL HwR HG H. unfold diff_synced in H.
+    intros rec path q r0 lels rels a a' Hrec HwL HwR H. unfold diff_synced in H.
     destruct (sync_value_accounting lels rels) as [El Pr].
     eapply pairs_acct; [exact El | exact Pr | | exact H].
     intros b [[[lidx lele] ridx] rele] b' Hin Hstep.
@@ -627,8 +567,7 @@ Section Acct.
     destruct lidx as [li|].
     - destruct ridx as [ri|].
       + destruct (pair_elems _ _ _ _ _ _ _ El Pr Hin) as [I1 I2].
-        destruct (HG _ _ I1 I2) as [G1 G2].
-        apply (Hrec _ _ _ _ _ _ _ _ (HwL _ I1) (HwR _ I2) G1 G2 Hstep).
+        apply (Hrec _ _ _ _ _ _ _ _ (HwL _ I1) (HwR _ I2) (root_g_child _ _ _) Hstep).
       + inversion Hstep; subst. rewrite LL_cons, RL_cons. simpl. rewrite app_nil_r.
         split; [apply Permutation_app_comm | apply Permutation_refl].
     - destruct ridx as [ri|]; [|destruct Sh as [Sh|Sh]; exfalso; apply Sh; reflexivity].
@@ -650,7 +589,6 @@ Section Acct.
                             (lels rels : list node) (a a' : list entry),
     rec_acct rec ->
     (forall x, In x lels -> wf_doc x = true) -> (forall y, In y rels -> wf_doc y = true) ->
-    (forall x y, In x lels -> In y rels -> null_guard x y = true /\ null_guard y x = true) ->
     foldM (fun a (p : spair) =>
              let '(lidx, lele, ridx, rele) := p in
              match lidx with
@@ -666,7 +604,7 @@ Section Acct.
              end) (sync_key cfg r0 lels rels) a = Ok a' ->
     Permutation (LL a') (LL a ++ flat_map leaves lels) /\ Permutation (RL a') (RL a ++ flat_map leaves rels).
   Proof.
-    intros rec deep path q r0 lels rels a a' Hrec HwL HwR HG H.
+    intros rec deep path q r0 lels rels a a' Hrec HwL HwR H.
     destruct (sync_key_accounting cfg r0 lels rels) as [El Pr].
     eapply pairs_acct; [exact El | exact Pr | | exact H].
     intros b [[[lidx lele] ridx] rele] b' Hin Hstep.
@@ -676,8 +614,7 @@ Section Acct.
     - destruct ridx as [ri|].
       + destruct deep.
         * destruct (pair_elems _ _ _ _ _ _ _ El Pr Hin) as [I1 I2].
-          destruct (HG _ _ I1 I2) as [G1 G2].
-          apply (Hrec _ _ _ _ _ _ _ _ (HwL _ I1) (HwR _ I2) G1 G2 Hstep).
+          apply (Hrec _ _ _ _ _ _ _ _ (HwL _ I1) (HwR _ I2) (root_g_child _ _ _) Hstep).
         * inversion Hstep; subst. apply acct_cmp.
       + inversion Hstep; subst. rewrite LL_cons, RL_cons. simpl. rewrite app_nil_r.
         split; [apply Permutation_app_comm | apply Permutation_refl].
@@ -689,14 +626,15 @@ Section Acct.
   Lemma lists_acct : forall rec path q i lels j rels par pref a a',
     rec_acct rec ->
     wf_doc (NSeq i lels) = true -> wf_doc (NSeq j rels) = true ->
-    null_guard (NSeq i lels) (NSeq j rels) = true -> null_guard (NSeq j rels) (NSeq i lels) = true ->
-    diff_lists path_eq cfg rec path q (NSeq j rels) lels rels par pref a = Ok a' ->
+    diff_lists path_eq cfg rec path q (NSeq i lels) (NSeq j rels) lels rels par pref a = Ok a' ->
     acct (NSeq i lels) (NSeq j rels) a a'.
   Proof.
-    intros rec path q i lels j rels par pref a a' Hrec HwL HwR G1 G2 H.
+    intros rec path q i lels j rels par pref a a' Hrec HwL HwR H.
     pose proof (wf_seq_inv _ _ HwL) as WL. pose proof (wf_seq_inv _ _ HwR) as WR.
-    assert (HG : forall x y, In x lels -> In y rels -> null_guard x y = true /\ null_guard y x = true).
-    { intros x y Hx Hy. split; [eapply (null_guard_child _ _ _ _ HwL G1) | eapply (null_guard_child _ _ _ _ HwR G2)]; auto. }
+    unfold diff_lists in H.
+    destruct (negb _).
+    { inversion H; subst. unfold acct. rewrite !LL_cons, !RL_cons. simpl.
+      split; apply Permutation_app_comm. }
     unfold acct. simpl leaves.
     assert (Harr : forall deep nc,
       diff_arrays path_eq cfg rec deep path q (NSeq j rels) lels rels nc a = Ok a' ->
@@ -715,16 +653,15 @@ Section Acct.
       - eapply (keyed_acct rec false); eauto.
       - eapply Harr; eauto.
       - eapply synced_acct; eauto. }
-    unfold diff_lists in H.
     destruct rels as [|[ | | | ] rr]; try (eapply Harr; eauto; fail).
     eapply Haoh; eauto.
   Qed.
 
   Lemma body_acct : forall rec, rec_acct rec -> rec_acct (diff_body path_eq cfg rec).
   Proof.
-    intros rec Hrec path q l r par pref a a' HwL HwR G1 G2 H.
+    intros rec Hrec path q l r par pref a a' HwL HwR G H.
     destruct l as [i v|i lkvs|i lels|i lels], r as [j w|j rkvs|j rels|j rels]; simpl in H;
-      try (eapply clash_acct; [exact HwL | exact HwR | exact G1 | exact G2 | simpl; auto | exact H]).
+      try (eapply (clash_acct path q _ _ par); [exact HwL | exact HwR | exact G | simpl; auto | exact H]).
     - inversion H; subst. apply acct_cmp.
     - eapply dicts_acct; eauto.
     - eapply lists_acct; eauto.
@@ -734,44 +671,45 @@ Section Acct.
   Lemma between_acct : forall fuel, rec_acct (diff_between path_eq cfg fuel).
   Proof.
     induction fuel as [|f IH].
-    - intros path q l r par pref a a' _ _ _ _ H. simpl in H. discriminate.
-    - intros path q l r par pref a a' HwL HwR G1 G2 H. simpl in H. eapply body_acct; eauto.
+    - intros path q l r par pref a a' _ _ _ H. simpl in H. discriminate.
+    - intros path q l r par pref a a' HwL HwR G H. simpl in H. eapply body_acct; eauto.
   Qed.
 
   Theorem compare_to_accounting : forall L R es,
-    wf_doc L = true -> wf_doc R = true -> null_guard L R = true -> null_guard R L = true ->
+    wf_doc L = true -> wf_doc R = true -> root_guard L R = true ->
     compare_to path_eq cfg L R = Ok es ->
     Permutation (left_leaves es) (leaves L) /\ Permutation (right_leaves es) (leaves R).
   Proof.
-    intros L R es HwL HwR G1 G2 H. unfold compare_to in H.
+    intros L R es HwL HwR G H. unfold compare_to in H.
     match type of H with (bind ?F _ = _) => destruct F as [acc| |] eqn:EF end; simpl in H; try discriminate.
     inversion H; subst.
-    destruct (between_acct _ _ _ _ _ _ _ _ _ HwL HwR G1 G2 EF) as [P1 P2]. simpl in P1, P2.
+    destruct (between_acct _ _ _ _ _ _ _ _ _ HwL HwR (fun _ => G) EF) as [P1 P2]. simpl in P1, P2.
     split.
     - eapply perm_trans; [apply LL_perm; apply Permutation_sym; apply Permutation_rev | exact P1].
     - eapply perm_trans; [apply RL_perm; apply Permutation_sym; apply Permutation_rev | exact P2].
   Qed.
 End Acct.
 
-(* ---- finding F3: the refutation witness of the unguarded statement ---- *)
+(* ---- what is left of finding F3: a null document against a container ---- *)
 Definition f3a_leaf (o : N) (v : pyval) : node := NLeaf (mkinfo o None false None) v.
 Definition f3a_L : node := NMap (mkinfo 0 None true None) [(f3a_leaf 1 (PStr "a"), f3a_leaf 2 PNone)].
 Definition f3a_R : node :=
   NMap (mkinfo 3 None true None)
        [(f3a_leaf 1 (PStr "a"), NMap (mkinfo 4 None true None) [(f3a_leaf 5 (PStr "b"), f3a_leaf 6 (PInt 1))])].
 Definition f3a_cfg : dcfg := mkdcfg false [] [] None None None None.
+Definition f3a_root_R : node := NMap (mkinfo 3 None true None) [(f3a_leaf 5 (PStr "b"), f3a_leaf 6 (PInt 1))].
 
 Lemma accounting_refuted_witness :
   exists L R es, wf_doc L = true /\ wf_doc R = true /\
     compare_to path_eq_real f3a_cfg L R = Ok es /\ ~ Permutation (left_leaves es) (leaves L).
 Proof.
-  exists f3a_L, f3a_R. eexists. split; [reflexivity|]. split; [reflexivity|]. split; [vm_compute; reflexivity|].
+  exists (f3a_leaf 2 PNone), f3a_root_R. eexists. split; [reflexivity|]. split; [reflexivity|]. split; [vm_compute; reflexivity|].
   vm_compute. intros P. apply Permutation_nil in P. discriminate P.
 Qed.
 
 Lemma accounting_all_modes :
   forall path_eq cfg L R es,
-    wf_doc L = true -> wf_doc R = true -> null_guard L R = true -> null_guard R L = true ->
+    wf_doc L = true -> wf_doc R = true -> root_guard L R = true ->
     compare_to path_eq cfg L R = Ok es ->
     Permutation (left_leaves es) (leaves L) /\ Permutation (right_leaves es) (leaves R).
 Proof. intros. eapply compare_to_accounting; eauto. Qed.
